@@ -7,7 +7,9 @@ import N0Verif.Model.XPath
   `fixes/C19-b.patch` (`'..'` looks its target up by xpath and no longer deletes from the
   stack), `fixes/C19-c.patch` (a `text()` condition is no longer appended to the found xpath),
   `fixes/C19-d.patch` (a name / index step on a final element is a miss, not `KeyError("Internal
-  error")`) and `fixes/C19-e.patch` (`findall` hands `raise_exception` on to `_findall`) applied.
+  error")`), `fixes/C19-e.patch` (`findall` hands `raise_exception` on to `_findall`) and
+  `fixes/C19-f.patch` (a `text()` condition compares a node that is not a string instead of raising
+  AttributeError) applied.
 
   `_findall` has **two mutable default arguments** (`found_xpath_list = []`,
   `parent_nodes_stack = {}`) and updates the list object it received *in place*
@@ -218,17 +220,47 @@ def stepUp (rest : List Str) (fl : FL) (ps : PS) : Out :=
     let o := rec target rest fl.dropLast ps
     ⟨o.res, fl, o.ps⟩
 
-/-- `[text()=v]`: the condition only filters; the search continues in the same node with the
-**same** list object and a copy of the stack that registers the node under its own xpath -/
-def stepText (node : Val) (rest : List Str) (eq : Bool) (v : Str) (fl : FL) (ps : PS) : Out :=
+/-- characters of the texts Python's `float()` accepts: digits, `.`, `_`, signs, exponent, the
+letters of `inf` / `infinity` / `nan` in either case, surrounding blanks (a superset is enough) -/
+def floatLitChar (c : Char) : Bool :=
+  isAsciiDigit c || isPySpace c || ['.', '_', '+', '-', 'e', 'E', 'i', 'I', 'n', 'N', 'f', 'F', 't', 'T', 'y', 'Y', 'a', 'A'].contains c
+
+/-- the comparison of a `text()` condition (fix C19-f): a string node is compared case-insensitively;
+an `int` (`bool` included) node is compared as a number with `int(expected)` — a text `int()` refuses is
+not equal — exactly as item access does (`XPath.textEqCond`); `None`, a dict and a list have no text and
+are equal to no expected text.  `float(expected)` for a float node (unless the text cannot be a
+float literal) and `lower()` beyond ASCII are outside the model. -/
+def textEq (node : Val) (v : Str) : PyM Bool :=
   match node with
   | .str s =>
-    if s.any (fun c => c.toNat ≥ 128) then ⟨.error .Unsupported, fl, ps⟩    -- `lower()` beyond ASCII
-    else if (lower s == lower v) != eq then ⟨.ok Option.none, fl, ps⟩
+    if s.any (fun c => c.toNat ≥ 128) then .error .Unsupported    -- `lower()` beyond ASCII
+    else .ok (lower s == lower v)
+  | .flt r =>
+    -- `float(expected)` is not modelled in general; a text with a character no float literal contains is refused
+    -- by `float()` (ValueError), so it is not equal to the node
+    -- by `float()` (ValueError), so it is not equal to the node; an integer literal below 10^15 is
+    -- converted exactly and equals the node iff the node prints as that integer followed by `.0`
+    match XPath.pyInt v with
+    | some i =>
+      if i.natAbs < 10 ^ 15 then .ok (r == intRepr i ++ ['.', '0'] || (i == 0 && r == ['-', '0', '.', '0']))
+      else .error .Unsupported
+    | Option.none => if v.all floatLitChar then .error .Unsupported else .ok false
+  | .int i => .ok (XPath.pyInt v == some i)
+  | .bool b => .ok (XPath.pyInt v == some (if b then 1 else 0))
+  | _ => .ok false
+
+/-- `[text()=v]`: the condition only filters; the search continues in the same node with the
+**same** list object and a copy of the stack that registers the node under its own xpath.  No kind
+of node makes the step itself raise (before fix C19-f: AttributeError of `parent_node.lower()` for
+every node that is not a string). -/
+def stepText (node : Val) (rest : List Str) (eq : Bool) (v : Str) (fl : FL) (ps : PS) : Out :=
+  match textEq node v with
+  | .error e => ⟨.error e, fl, ps⟩
+  | .ok b =>
+    if b != eq then ⟨.ok Option.none, fl, ps⟩
     else
       let o := rec node rest fl (push ps fl node)
       ⟨o.res, o.fl, ps⟩
-  | _ => ⟨.error .AttributeError, fl, ps⟩                         -- `parent_node.lower()`
 
 /-- integer index -/
 def stepIdx (node : Val) (rest : List Str) (i : Int) (fl : FL) (ps : PS) : Out :=
